@@ -188,6 +188,28 @@ def check_C02(env):
             yield case
 
 
+    # LinTS: as alpha -> 0 the draws concentrate on x.beta; one feature and several query rows in one call included
+    for dim in (1, 2):
+        lp = ['LinTS', {'alpha': 1e-9, 'l2_lambda': 1.0}]
+        if not in_focus(env, lp):
+            continue
+        rows = rand_rows(rng, 10, ARMS, False, dim)
+        case = {'arms': ARMS, 'lp': lp, 'calls': [['fit'] + rows]}
+        m = build(case)
+        drive(m, case['calls'])
+        ref = oracle.RefBandit(ARMS, lp)
+        ref.apply(case['calls'][0])
+        qs = [[1.0] * dim, [2.0] * dim, [-1.0] * dim, [0.5] * dim]
+        got = m.predict_expectations(qs)
+        for q, g in zip(qs, got):
+            exp = oracle.lp_stat(['LinGreedy', {'epsilon': 0.0, 'l2_lambda': 1.0}], ARMS, ref.rows, q)
+            for a in ARMS:
+                if not close(g[a], exp[a], 1e-5):
+                    raise Failure('C02', 'LinTS (alpha -> 0), %d feature(s), %d query rows: arm %r at %r has %r, x.beta is %r'
+                                  % (dim, len(qs), a, q, g[a], exp[a]), case, g, exp, 'linear')
+        yield case
+
+
 # =========================================================================================== C03
 def nbh_rows(nbh, rows, q):
     if nbh[0] == 'Radius':
@@ -451,6 +473,35 @@ def check_C08(env):
         yield case
 
 
+    # two bandits built from one list object: an arm change of one must not reach the other
+    from mabwiser.mab import MAB
+    for lp in CF_ALL[:2] + LIN_DET[:1]:
+        if not in_focus(env, lp):
+            continue
+        shared = list(ARMS)
+        ctx = lp[0].startswith('Lin')
+        rows = rand_rows(rng, 8, ARMS, False, 2 if ctx else 0)
+        a = MAB(shared, core.make_lp(lp), seed=3)
+        b = MAB(shared, core.make_lp(lp), seed=3)
+        case = {'arms': ARMS, 'lp': lp, 'calls': [['fit'] + rows], 'note': 'two bandits constructed from the same list object; '
+                'add_arm(7) on the first only'}
+        call(a, ['fit'] + rows)
+        call(b, ['fit'] + rows)
+        a.add_arm(7)
+        shared.append(99)
+        q = [GRID_QUERIES[0]] if ctx else None
+        try:
+            e = b.predict_expectations(q)
+            p_ = b.predict(q)
+        except Exception as ex:      # noqa
+            raise Failure('C08', 'a bandit raised %r after an arm was added to ANOTHER bandit built from the same list' % ex,
+                          case, repr(ex), None, 'mab')
+        if list(e.keys()) != ARMS or list(b.arms) != ARMS or p_ not in ARMS:
+            raise Failure('C08', 'outputs of a bandit changed after an arm was added to another bandit / to the caller\'s list',
+                          case, [list(e.keys()), list(b.arms)], ARMS, 'mab')
+        yield case
+
+
 # =========================================================================================== C09
 def check_C09(env):
     rng = env['rng']
@@ -547,8 +598,9 @@ def check_C14(env):
         rows1 = rand_rows(rng, 9, ARMS, False, d)
         rows2 = rand_rows(rng, 4, ARMS, False, d)
         conv = lambda rows: [rows[0], [core.binz_arm(a, r) for a, r in zip(rows[0], rows[1])]] + rows[2:]   # noqa: E731
-        calls = [['fit'] + rows1, ['partial_fit'] + rows2]
-        calls_b = [['fit'] + conv(rows1), ['partial_fit'] + conv(rows2)]
+        rows3 = rand_rows(rng, 5, ARMS, True, d)         # raw rewards that happen to be 0 / 1 (converted all the same)
+        calls = [['fit'] + rows1, ['partial_fit'] + rows2, ['partial_fit'] + rows3]
+        calls_b = [['fit'] + conv(rows1), ['partial_fit'] + conv(rows2), ['partial_fit'] + conv(rows3)]
         case = {'arms': ARMS, 'lp': lp, 'np': nbh, 'calls': calls, 'seed': 9}
         a, b = build(case), build(dict(case, lp=plain))
         for ca, cb in zip(calls, calls_b):
@@ -894,14 +946,15 @@ def check_C12(env):
 # =========================================================================================== C13
 def check_C13(env):
     rng = env['rng']
-    feats = {1: [1.0, 0.1], 2: [0.0, 1.0], 3: [1.0, 0.3], 4: [-1.0, -1.0], 5: [0.2, 1.0]}
-    arms = [1, 2, 3, 4, 5]
+    # arm 6 is closer to arm 3 (warm-started at quantile 0.5) than to its closest trained arm 1
+    feats = {1: [1.0, 0.1], 2: [0.0, 1.0], 3: [1.0, 0.3], 4: [-1.0, -1.0], 5: [0.2, 1.0], 6: [1.0, 0.84]}
+    arms = [1, 2, 3, 4, 5, 6]
     for lp in CF_STATE[:5] + LIN_DET[:1]:
         if not in_focus(env, lp):
             continue
         binary = is_binary_lp(lp)
         ctx = lp[0].startswith('Lin')
-        rows = rand_rows(rng, 8, [1, 2], binary, 2 if ctx else 0)          # arms 3, 4, 5 are cold
+        rows = rand_rows(rng, 8, [1, 2], binary, 2 if ctx else 0)          # arms 3, 4, 5, 6 are cold
         case = {'arms': arms, 'lp': lp, 'calls': [['fit'] + rows, ['warm_start', [[k, v] for k, v in feats.items()], 0.5]]}
         m = build(case)
         call(m, case['calls'][0])
@@ -946,6 +999,28 @@ def check_C13(env):
         m.warm_start(dict(feats), 0.5)
         if learned_state(m) != snap:
             raise Failure('C13', 'a second warm_start with the same arguments changed the bandit', case, None, None, 'base_mab')
+        # a larger quantile warms more arms, each from its closest *trained* arm (never from a merely warm one)
+        m.warm_start(dict(feats), 1.0)
+        for a in arms:
+            stt = m._imp.arm_to_status[a]
+            if a in trained:
+                continue
+            best = min(trained, key=lambda t: sd.euclidean(feats[a], feats[t]))
+            if not stt['is_warm'] or stt['warm_started_by'] not in trained or \
+                    sd.euclidean(feats[a], feats[stt['warm_started_by']]) > sd.euclidean(feats[a], feats[best]) + 1e-12:
+                raise Failure('C13', 'quantile 1.0 after 0.5: cold arm %r is warm=%r from %r, its closest trained arm is %r'
+                              % (a, stt['is_warm'], stt['warm_started_by'], best),
+                              dict(case, calls=case['calls'] + [['warm_start', case['calls'][1][1], 1.0]]), stt, best, 'base_mab')
+        if list(m.cold_arms) != []:
+            raise Failure('C13', 'cold_arms lists %r although every arm is observed or warm-started' % (m.cold_arms,), case,
+                          m.cold_arms, [], 'base_mab')
+        # refit on data that omits a trained and the warm arms: they are cold again
+        refit = rand_rows(rng, 6, [2], binary, 2 if ctx else 0)
+        call(m, ['fit'] + refit)
+        if sorted(m.cold_arms) != [1, 3, 4, 5, 6]:
+            raise Failure('C13', 'after a refit on arm 2 only, cold_arms is %r (every other arm is neither observed nor '
+                          'warm-started since that fit)' % (m.cold_arms,), dict(case, calls=case['calls'] + [['fit'] + refit]),
+                          m.cold_arms, [1, 3, 4, 5, 6], MODULE_OF[lp[0]])
         yield case
 
 
